@@ -3,6 +3,8 @@ Tie: the extracted model vs the real helpers on exhaustive small strings + rando
 for four conventions (case x win_paths) plus a no-alt-sep one; the laws of the property are
 also evaluated directly on the real helpers (that is the search for a failing input)."""
 import itertools
+import json
+import os
 import types
 
 from .. import envfix, framework as fw
@@ -394,6 +396,55 @@ def run(ctx):
             for rq, mo, io in zip(reqs, outs, impl_results):
                 if mo != io:
                     mismatches.append((label, rq, mo, io))
+
+        # ---- corpus first: boundary cases and the witnesses of the refuted statements, on every convention
+        corpus = {}
+        cdir = os.path.join(fw.VERIF, "corpus", "C13")
+        for fn in sorted(os.listdir(cdir)) if os.path.isdir(cdir) else []:
+            if fn.endswith(".json"):
+                for k, v in json.load(open(os.path.join(cdir, fn), encoding="utf-8")).items():
+                    if not k.startswith("_"):
+                        corpus.setdefault(k, []).extend(v)
+        stats["corpus"] = {k: len(v) for k, v in corpus.items()}
+
+        def report(found, cs, win, alt):
+            for law, d in found:
+                ctx.violation("law %s fails on the real helpers: %r" % (law, d),
+                              dict(kind="law", law=law, conv=[cs, win, alt], detail=d))
+
+        for (cs, win, alt) in confs:
+            p = make_prov(cs, win, alt)
+            twin = make_prov(True, win, alt)
+            im = Impl(p)
+            cv = conv_sx(cs, win, alt)
+            reqs, res = [], []
+            for a in corpus.get("u", []):
+                reqs += [[0, cv, S(a)], [1, cv, [S(a)]], [2, cv, S(a)], [3, cv, S(a), 0], [3, cv, S(a), 1]]
+                res += [im.nps(a), im.join([a]), im.split(a), im.norm(a, False), im.norm(a, True)]
+                report(laws_unary(p, a, twin), cs, win, alt)
+                dist.add(("cu", cs, win, alt, a), nontrivial=bool(a))
+            for (a, b) in corpus.get("b", []):
+                reqs += [[4, cv, S(a), S(b), 0], [4, cv, S(a), S(b), 1], [6, cv, S(a), S(b), 0], [6, cv, S(a), S(b), 1], [1, cv, [S(a), S(b)]]]
+                res += [im.sub(a, b, False), im.sub(a, b, True), im.match(a, b, False), im.match(a, b, True), im.join([a, b])]
+                report(laws_binary(p, a, b), cs, win, alt)
+                dist.add(("cb", cs, win, alt, a, b), nontrivial=bool(a) and bool(b))
+            for (a, b, c) in corpus.get("t", []):
+                reqs.append([5, cv, S(a), S(b), S(c)])
+                res.append(im.rep(a, b, c))
+                report(laws_ternary(p, a, b, c), cs, win, alt)
+                dist.add(("ct", cs, win, alt, a, b, c), nontrivial=bool(a) and bool(b))
+            if alt:
+                p1 = make_prov(not cs, win, alt)
+                for (r0, r1, path) in corpus.get("tr", []):
+                    for side in (0, 1):
+                        reqs.append([7, cv, conv_sx(not cs, win, alt), S(r0), S(r1), side, S(path)])
+                        res.append(translate_impl((p, p1), (r0, r1), side, path))
+                    for law, d in laws_translate((p, p1), (r0, r1), path):
+                        ctx.violation("law %s fails on the real code: %r" % (law, d),
+                                      dict(kind="law", law=law, detail=dict(d, roots=[r0, r1], cs=[cs, not cs], win=[win, win])))
+                    dist.add(("ctr", cs, win, r0, r1, path), nontrivial=bool(path))
+            compare(reqs, res, "corpus")
+            stats["laws_checked"] += len(reqs)
 
         for (cs, win, alt) in confs:
             p = make_prov(cs, win, alt)
